@@ -88,8 +88,22 @@ def replay(spec, ctx):
     oracle(spec.get("spec", spec) if "kind" not in spec else spec, ctx)
 
 
+def bnaf_activation_cases():
+    from hypothesis import strategies as st_
+
+    @st_.composite
+    def f(draw):
+        d = draw(st_.integers(1, 3))
+        return {"kind": "leaf", "spec": {"k": "BNAF", "shape": [d], "seed": draw(gen.SEEDS), "depth": draw(st_.integers(1, 2)),
+                                         "block_dim": draw(st_.integers(1, 3)), "activation": draw(st_.sampled_from(["tanh", "tanh", "softplus_fn"])),
+                                         "cond": draw(st_.sampled_from([None, [2]]))},
+                "pscale": draw(st_.sampled_from([0.0, 0.3, 1.0])), "inp": draw(gen.inputs())}
+    return f()
+
+
 def run(ctx):
     q = ctx.tier == "quick"
+    run_hypothesis(ctx, bnaf_activation_cases(), oracle, 10 if q else 120, "C18-bnaf-activations")
     run_hypothesis(ctx, bc.leaf_cases(inv=False), oracle, 50 if q else 1000, "C18-leaves")
     run_hypothesis(ctx, bc.tree_cases(3, 7, inv=False) if q else bc.tree_cases(4, 12, inv=False), oracle, 12 if q else 250,
                    "C18-trees")
